@@ -631,6 +631,49 @@ def rule_d(ctx: Context, R: Reporter, cc: ClassInfo, v: FuncInfo):
     R.check("C18.d", f"no name-crossed positional argument among {n_pos} positional name arguments of internal calls", True, None, None, key="crossed-argument-scan", loc="tempest/")
 
 
+def rule_f(ctx: Context, R: Reporter, cc: ClassInfo, v: FuncInfo):
+    """C18.f  validation sees what the user gave: wherever the configuration object is constructed from the parameters
+    of a public constructor (the facade), every field that carries the name of such a parameter receives the parameter
+    *as received* -- not re-bound, defaulted (`n = n or 2 * d`), clamped or cast on the way.  A value repaired before it
+    reaches the configuration is never validated: the documented rejection does not happen."""
+    fields = list(cc.fields())
+    n = 0
+    for fi in ctx.prog.functions.values():
+        if fi.cls is cc or fi.cls is None:
+            continue
+        flow = None
+        for (call, tg) in ctx.cg.sites.get(fi.qualname, []):
+            if cc not in tg:
+                continue
+            flow = flow or flow_of(fi.node)
+            at = flow.node_containing(call)
+            given = {}
+            for i, a in enumerate(call.args):
+                if i < len(fields) and not isinstance(a, ast.Starred):
+                    given[fields[i]] = a
+            for k in call.keywords:
+                if k.arg:
+                    given[k.arg] = k.value
+            for fld, a in given.items():
+                if fld not in fi.params:
+                    continue  # a value the constructor computes itself (the wrapped likelihood, ...)
+                n += 1
+                ok = isinstance(a, ast.Name) and a.id == fld and at is not None and all(d.kind == "param" for d in flow.reaching(at, fld))
+                if not ok and at is not None:
+                    # the parameter wrapped by a constructor of the library (the binding wrapper of the likelihood): the
+                    # wrapper receives the parameter as given
+                    rx = ExprResolver(fi.node).resolve(a, at)
+                    if isinstance(rx, ast.Call) and any(isinstance(t, ClassInfo) for t in ctx.res.call_targets(fi, rx)) \
+                            and any(isinstance(x, ast.Name) and x.id == fld for x in rx.args) and all(d.kind == "param" for d in flow.reaching(at, fld)):
+                        ok = True
+                why = f"`{unparse(a)[:40]}`" if not (isinstance(a, ast.Name) and a.id == fld) else \
+                    "re-bound before the call: " + "; ".join(norm_text(d.stmt)[:50] for d in (flow.reaching(at, fld) if at is not None else []) if d.kind != "param" and d.stmt is not None)
+                R.check("C18.f", f"{fi.short}: `{fld}` reaches the configuration as the caller gave it", ok, fi, call,
+                        msg=f"{fi.short}: the configuration is built with {fld}={why}, not with the `{fld}` the caller passed: an invalid value (0, a negative or fractional number, "
+                            f"a wrong type) can be replaced before validation ever sees it, so construction succeeds where the documented rejection should happen", key=f"config-arg-as-given:{fi.short}:{fld}")
+    R.floor("C18.f", "configuration fields supplied from same-named constructor parameters", n, 15)
+
+
 def rule_e(ctx: Context, R: Reporter):
     """C18.e  the documented cap n_max_steps * n_dim bounds the number of MCMC steps for every valid pair
     (n_steps, n_max_steps), including n_steps > n_max_steps: where the kernel combines the floor, the adaptive
@@ -669,6 +712,7 @@ def run(ctx: Context, R: Reporter):
     R.guard(rule_c, ctx, R, cc, v)
     R.guard(rule_d, ctx, R, cc, v)
     R.guard(rule_e, ctx, R)
+    R.guard(rule_f, ctx, R, cc, v)
 
 
 def variants():
@@ -676,6 +720,8 @@ def variants():
 
     cf = "tempest/config.py"
     return [
+        Variant("f-facade-defaults-falsy-particle-count", "bad", insert_before("tempest/sampler.py", "Sampler.__init__", "config = SamplerConfig(", "n_particles = n_particles or 2 * n_dim"), ["C18.f"], quick=True),
+        Variant("f-benign-facade-local-copy", "benign", insert_before("tempest/sampler.py", "Sampler.__init__", "config = SamplerConfig(", "requested_particles = n_particles")),
         Variant("e-floor-after-cap", "bad", replace_stmt("tempest/mcmc.py", "BaseMCMCRunner._calculate_adaptive_steps", "return int(min(n_steps_final, n_steps_max))", "return int(max(n_steps_min, min(n_steps_adaptive, n_steps_max)))"), ["C18.e"], quick=True),
         Variant("c-coerce-before-validate", "bad", insert_before(cf, "SamplerConfig.__post_init__", "self.validate()", "if self.n_particles is not None:\n    object.__setattr__(self, 'n_particles', int(self.n_particles))"), ["C18.c"], quick=True),
         Variant("c-rebind-after-validate", "bad", _after_validate("if self.periodic is not None:\n    object.__setattr__(self, 'periodic', sorted(self.periodic))"), ["C18.c"]),
